@@ -36,6 +36,8 @@ class Kit:
             self.st.assume(v >= lo)
         if hi is not None:
             self.st.assume(v <= hi)
+        if lo is not None and hi is not None and E.mode == 'bv':
+            E.var_bounds[v.t.get_id()] = (lo, hi)       # assumed on every path (setup precedes the body)
         return v
 
     def bool(self, name):
@@ -99,6 +101,12 @@ class Contract:
         return []
 
     def result(self, K, a):
+        return None
+
+    def update(self, old, a):
+        """Functional postcondition: [(ref, new value)] giving each modified cell as an expression over the
+        pre-state, or None.  Proved like any ensures clause; at call sites the cell is simply SET to the
+        expression (no havoc, no quantified hypothesis)."""
         return None
 
     def havoc(self, K, a, ref, cur):
@@ -183,6 +191,10 @@ def verify(contract, registry, variant=None):
             clauses = ex.with_sink(o.st, fsrc.node, lambda: contract.ensures(Ko, a, old, res))
             for nm, cl in clauses:
                 ex.oblige(o.st, cl, 'post.' + nm, fsrc.node)
+            upd = contract.update(old, a) if o.kind != 'raise' else None
+            for j, (ref, want) in enumerate(upd or []):
+                for suf, cl in ex.with_sink(o.st, fsrc.node, lambda: V.split_eq(Ko.st.seq(ref), want)):
+                    ex.oblige(o.st, cl, 'post.update%d%s' % (j, suf), fsrc.node)
     except SymErr as e:
         rep.error = 'unsupported: %s' % e
     rep.axioms = list(E.axioms)
